@@ -3,6 +3,30 @@ package sim
 // EngineFor returns the function that executes a plan for a property.
 func EngineFor(prop string) func(*Plan) *RunResult {
 	switch prop {
+	case "C05", "C18":
+		return func(plan *Plan) *RunResult {
+			if plan.Con != nil || (len(plan.Ops) == 0 && (prop == "C05" || plan.Seed%2 == 0)) {
+				r := RunConProp(plan, prop)
+				r.Hash = Mix(r.Sig, uint64(r.Stats.Steps), uint64(r.Stats.Compares))
+				if r.Viol != nil {
+					r.Hash = Mix(r.Hash, MixStr(r.Viol.Oracle))
+				}
+				r.Sample = ConSample(plan.Con, plan.Sched)
+				return r
+			}
+			p := Profiles()[prop]
+			r := RunSeq(plan, p)
+			r.Evals = 1
+			r.NonTriv = nonTrivial(prop, r)
+			r.Hash = resultHash(r)
+			return r
+		}
+	case "C17":
+		return func(plan *Plan) *RunResult {
+			r := RunDiff(plan, Thorough)
+			r.Hash = resultHash(r)
+			return r
+		}
 	case "C07":
 		return func(plan *Plan) *RunResult {
 			r := RunFault(plan, Thorough)
